@@ -27,7 +27,8 @@ MESSAGES = [b"first", b"fix: colon", b"two words", b"three word message", b"tab\
             b"line one\nline two has three words\nmore", b"  padded  ", "non-ascii üé".encode(),
             b"a: b: c", b"trailing newline\n", b"x" * 300, b"m", b"", b" ", b"\nbody only, empty subject",
             b"subject\n\nbody after a blank line", b"ends with colon: ", b"\ttab first", b"commit abc", b"x: y\tz: w",
-            b"100% on", b"%s %d %%", b"first line\nsecond line of four words\nthird"]
+            b"100% on", b"%s %d %%", b"first line\nsecond line of four words\nthird",
+            b"crlf one\r\ncrlf two\r\n", b"ends with cr\r", b"cr\rinside"]
 
 CONTENTS = [b"", b"a", b"hello\n", b"\x00\x01\x02", b"blob 3\x00abc", b"\xff\xfe invalid utf8 \xc3",
             b"line1\nline2\n", b"12345", b" ", b"x" * 1000]
